@@ -328,3 +328,16 @@ def r7_positional_pairing(ctx):
 
 
 RULES.append(r7_positional_pairing)
+
+
+def r8_shared_defaults(ctx):
+    """C13.R8: fluent operations take `backend_kwargs: dict = {}` and similar; none of them may write into that shared default (see
+    common.mutable_defaults_untouched)."""
+    from .common import mutable_defaults_untouched
+    mutable_defaults_untouched(ctx, "C13.R8", ("earthkit.workflows",),
+                               "the first call pins a value (an axis, a dtype, a dimension) that every later call in the process silently inherits — the graph a program "
+                               "builds then depends on which programs were built before it")
+
+
+RULES.append(r8_shared_defaults)
+RULES.append(lazy("C14", "r6_payload_not_shared", "every node gets a payload of its own: placeholders appended for one node must not show up in a sibling built from the same Payload (a batch of 2 next to a batch of 3)"))
